@@ -6,7 +6,11 @@ Confirmed ones are copied to /verif/seeded/<name>/ with the confirmation recorde
 usage: confirm.py <outdir> [<outdir> ...]"""
 import json, os, shutil, subprocess, sys, time
 from pathlib import Path
-WT = Path("/tmp/confirm_wt"); B = Path("/tmp/confirm_build")
+import os
+WT = Path("/tmp/confirm_wt"); B = Path(os.environ.get("CONFIRM_BUILD", "/tmp/confirm_build"))
+EXTRA_CMAKE = os.environ.get("CONFIRM_CMAKE", "")      # e.g. "-DWITH_LLVM=yes -DWITH_MPFR=yes"
+EXTRA_LIBS = os.environ.get("CONFIRM_LIBS", "")        # e.g. "$(llvm-config-14 --libs --system-libs) -lmpfr"
+ONLY = set(filter(None, os.environ.get("CONFIRM_ONLY", "").split(",")))
 def sh(cmd, **kw):
     return subprocess.run(cmd, shell=True, capture_output=True, text=True, **kw)
 def log(*a): print(time.strftime("%H:%M:%S"), *a, flush=True)
@@ -16,7 +20,7 @@ if not WT.exists():
 else:
     sh("git -C %s checkout -- . && git -C %s checkout --detach %s" % (WT, WT, head))
 if not (B / "build.ninja").exists():
-    r = sh("cmake -G Ninja -S %s -B %s -DCMAKE_BUILD_TYPE=Release -DBUILD_BENCHMARKS=no -DCMAKE_CXX_COMPILER_LAUNCHER=ccache -DCMAKE_CXX_FLAGS_RELEASE=-O1" % (WT, B))
+    r = sh("cmake -G Ninja -S %s -B %s -DCMAKE_BUILD_TYPE=Release -DBUILD_BENCHMARKS=no -DCMAKE_CXX_COMPILER_LAUNCHER=ccache -DCMAKE_CXX_FLAGS_RELEASE=-O1 %s" % (WT, B, EXTRA_CMAKE))
     log("configure", r.returncode)
 def build():
     r = sh("nice -n -5 ninja -C %s -j12" % B)
@@ -27,7 +31,7 @@ def ctest():
     return ok, [l for l in r.stdout.splitlines() if "tests passed" in l or "Failed" in l][:5]
 def demo(src):
     exe = "/tmp/confirm_demo"
-    r = sh("g++ -std=c++11 -I%s -I%s %s %s/symengine/libsymengine.a -lgmp -o %s" % (WT, B, src, B, exe))
+    r = sh("g++ -std=c++11 -I%s -I%s %s %s/symengine/libsymengine.a -lgmp %s -o %s" % (WT, B, src, B, EXTRA_LIBS, exe))
     if r.returncode: return None, r.stderr[-500:]
     try:
         r = sh("timeout 300 %s" % exe)
@@ -41,6 +45,7 @@ for outdir in sys.argv[1:]:
     for d in sorted(Path(outdir).iterdir()):
         if not (d / "patch.diff").exists(): continue
         name = d.name
+        if ONLY and not any(name.startswith(o) for o in ONLY): continue
         res = dict(confirmed_at_repo=head)
         sh("git -C %s checkout -- ." % WT)
         rc0, o0 = build()
@@ -62,7 +67,7 @@ for outdir in sys.argv[1:]:
             for f in ("patch.diff", "demo.cpp"):
                 shutil.copy(d / f, dst / f)
             meta = json.loads((d / "meta.json").read_text())
-            meta["confirmation"] = dict(by="coordinator, scratch worktree /tmp/confirm_wt at /repo " + head,
+            meta["confirmation"] = dict(by="coordinator, scratch worktree /tmp/confirm_wt at /repo " + head + (" configured with " + EXTRA_CMAKE if EXTRA_CMAKE else ""),
                                         ran="git apply; ninja; ctest (100%% passed); demo unpatched exit 0; demo patched exit %s" % res["demo_patched"][0])
             (dst / "meta.json").write_text(json.dumps(meta, indent=1))
         sh("git -C %s checkout -- ." % WT)
